@@ -293,3 +293,110 @@ def declaration_objects_not_shared(V):
             lambda: 'field %s: after mutating the first result in place (now %r) the same input gives %r, before it gave %r' % (
                 fld, got, second, pristine[fld]))
     V.cover('done')
+
+
+# ------------------------------------------------------------------ every way of handing data to a data class
+class Article(Schema):
+    title: str = ''
+    tags: list = utype.Field(default_factory=list)
+    n: int = 0
+
+
+@utype.dataclass
+class ArticleDC:
+    title: str = ''
+    tags: list = utype.Field(default_factory=list)
+    n: int = 0
+
+
+SHAPES = ['mapping', 'mapping+keywords', 'keywords', '__from__', 'type_transform', 'mapping+overlapping-keywords']
+
+
+@ob('input/call-shapes', marks=['accept', 'reject'], budget=(40, 120),
+    bounds='Schema and @utype.dataclass classes called as T(mapping), T(mapping, **keywords), T(**keywords), T.__from__(mapping), '
+           'type_transform(mapping, T), T(mapping, **keywords naming a key of the mapping); mapping and keyword values picked (valid, '
+           'convertible, invalid, nested list): afterwards the caller\'s mapping and keyword dict hold exactly what they held before, '
+           'and a second identical call gives the same outcome')
+def input_call_shapes(V):
+    cls = V.pick('cls', [Article, ArticleDC])
+    shape = V.pick('shape', SHAPES)
+    payload = {'title': V.pick('title', ['t', 5]), 'n': V.pick('n', ['3', 'x', 1])}
+    if V.bool('payload_tags'):
+        payload['tags'] = ['a', ['b']]
+    kw = {'tags': ['x', ['y']]}
+    if shape == 'mapping+overlapping-keywords':
+        kw['n'] = 7
+    p0, k0 = fresh(payload), fresh(kw)
+    bp, bk = snap(payload), snap(kw)
+
+    def call():
+        try:
+            if shape == 'mapping':
+                r = cls(payload)
+            elif shape in ('mapping+keywords', 'mapping+overlapping-keywords'):
+                r = cls(payload, **kw)
+            elif shape == 'keywords':
+                r = cls(**payload)
+            elif shape == '__from__':
+                r = cls.__from__(payload) if hasattr(cls, '__from__') else type_transform(payload, cls)
+            else:
+                r = type_transform(payload, cls)
+            return ('ok', dict(r) if isinstance(r, dict) else {k: v for k, v in r.__dict__.items() if not k.startswith('__')})
+        except exc.ParseError as e:
+            return ('err', type(e).__name__)
+    first = call()
+    det = lambda: '%s called as %s with mapping %r keywords %r: afterwards mapping %r keywords %r' % (cls.__name__, shape, p0, k0, payload, kw)
+    V.check(payload == p0 and snap(payload) == bp, 'pure:input-mutated:mapping', det)
+    V.check(kw == k0 and snap(kw) == bk, 'pure:input-mutated:keywords', det)
+    second = call()
+    V.check(first == second, 'pure:repeat-differs', lambda: det() + ' ; first %r second %r' % (first, second))
+    V.cover('accept' if first[0] == 'ok' else 'reject')
+
+
+# ------------------------------------------------------------------ (c'') process-wide state of the converters (text formats)
+TEMPORAL_STRINGS = ['03/04/2021', '12/25/2020', '25/12/2020', '2021-03-04', '04.03.2021', '2021/03/04 05:06', '03-04-2021', '1/2/2003',
+                    'Mar 4 2021', '20210304']
+_REF_TEMPORAL = {}
+
+
+def _fresh_process_outcome(s, target):
+    """the conversion made as the FIRST conversion of a fresh interpreter (no earlier parse can have left anything behind)"""
+    import os
+    import subprocess
+    import sys
+    key = (s, target)
+    if key not in _REF_TEMPORAL:
+        repo = os.environ.get('UTYPE_REPO', '/repo')
+        code = ('import sys, datetime\nsys.path.insert(0, %r)\nfrom utype.utils.transform import type_transform\n'
+                'try:\n    print(repr(type_transform(%r, datetime.%s)))\nexcept Exception as e:\n    print("ERR", type(e).__name__)\n'
+                % (repo, s, target))
+        out = subprocess.run([sys.executable, '-c', code], stdout=subprocess.PIPE, stderr=subprocess.DEVNULL, timeout=60)
+        _REF_TEMPORAL[key] = out.stdout.decode().strip()
+    return _REF_TEMPORAL[key]
+
+
+@ob('history-independence/text-formats', marks=['done'], budget=(60, 200),
+    bounds='date / datetime from %d strings incl. day/month-ambiguous ones; 0..2 solver-picked earlier conversions of other strings, then '
+           'a solver-picked conversion: the outcome (value or error class) equals the outcome of the same conversion made as the first '
+           'conversion of a fresh interpreter' % len(TEMPORAL_STRINGS))
+def history_text_formats(V):
+    import datetime
+    target = V.pick('target', ['date', 'datetime'])
+    T = getattr(datetime, target)
+    n = V.pick('n_before', [0, 1, 2])
+    hist = [V.pick('h%d' % i, TEMPORAL_STRINGS) for i in range(n)]
+    x = V.pick('x', TEMPORAL_STRINGS)
+    with V.notrace():
+        want = _fresh_process_outcome(x, target)
+        for h in hist:
+            try:
+                type_transform(h, T)
+            except Exception:  # noqa
+                pass
+        try:
+            got = repr(type_transform(x, T))
+        except Exception as e:  # noqa
+            got = 'ERR ' + type(e).__name__
+    V.check(got == want, 'pure:outcome-depends-on-history:text-format',
+            lambda: '%s after %r: %r -> %s ; as the first conversion of a fresh interpreter -> %s' % (target, hist, x, got, want))
+    V.cover('done')
